@@ -119,7 +119,17 @@ def compare_trees(schema, parent_type, op_sels, ast_sels, path, out, stats):
             kind.append("operation-selects-what-ast-lacks:" + only_op[0][0])
         if only_ast:
             kind.append("ast-has-what-operation-lacks:" + only_ast[0][0])
-        out.append(("tree-mismatch/" + "+".join(kind), f"at {'/'.join(path) or '<root>'}: only in operation {only_op[:3]}, only in normalization AST {only_ast[:3]}"))
+        # the cause, as far as the shape tells: keeps known findings from hiding other mismatches
+        shape = "/".join("node" if x == "node" else ("..." if x.startswith("... on") else "f") for x in path) or "<root>"
+        if not ast_sels and [k[:2] for k in o] == [("F", "__typename")]:
+            cause = "placeholder-__typename-of-empty-selection-set"
+        elif only_op and only_op[0][0] == "I" and len(o) == 1 and all(k[0] == "F" for k in a):
+            tk = schema.types.get(only_op[0][1], {}).get("kind")
+            cause = f"operation-wraps-selections-in-fragment-on-{tk}-ast-has-them-unwrapped"
+        else:
+            cause = "other"
+        out.append(("tree-mismatch/" + "+".join(kind) + "@" + shape + ":" + cause,
+                    f"at {'/'.join(path) or '<root>'}: only in operation {only_op[:3]}, only in normalization AST {only_ast[:3]}"))
     amap = {}
     for n in ast_sels:
         amap.setdefault(akey(n), n)
@@ -147,7 +157,11 @@ def compare_trees(schema, parent_type, op_sels, ast_sels, path, out, stats):
             want = tname if tk == "OBJECT" else None
             if n.get("concreteType") != want:
                 stats["concrete_mismatch"] += 1
-                out.append(("concrete-type", f"at {'/'.join(path + [s['name']])}: field type {tname} is {tk}, AST concreteType={n.get('concreteType')!r}"))
+                subs = n.get("selections") or []
+                narrowed = (want is None and len(subs) == 1 and subs[0].get("kind") == "InlineFragment" and subs[0].get("type") == n.get("concreteType"))
+                cause = ("abstract-field-narrowed-to-its-only-fragment" if narrowed else
+                         ("abstract-field-has-concreteType" if want is None else "object-field-lacks-concreteType"))
+                out.append(("concrete-type/" + cause, f"at {'/'.join(path + [s['name']])}: field type {tname} is {tk}, AST concreteType={n.get('concreteType')!r}"))
             if tk == "OBJECT":
                 stats["concrete_linked"] += 1
             else:
